@@ -100,6 +100,7 @@ func session(kind int, id int) (obs []string, late func() []string, err error) {
 	defer b.Close()
 	watchdog := time.AfterFunc(10*time.Second, func() { a.Close(); b.Close() })
 	defer watchdog.Stop()
+	a2close := func() { a.Close(); b.Close() } // unblocks the other peer
 	compressed := kind%2 == 1
 	tag := fmt.Sprintf("k%d", kind)
 	sizes := [][]int{{1, 10, 100}, {4096, 5}, {70000, 3}, {0, 126, 125, 65536}}[kind/2%4]
@@ -112,6 +113,12 @@ func session(kind int, id int) (obs []string, late func() []string, err error) {
 	wg.Add(2)
 	go func() { // server
 		defer wg.Done()
+		defer func() { // a panic inside the library ends this peer with an error instead of the whole driver
+			if p := recover(); p != nil {
+				serr = fmt.Errorf("panic: %v", p)
+				a2close()
+			}
+		}()
 		var hs ws.Handshake
 		if kind%4 == 0 {
 			hs, serr = ws.Upgrade(cb) // DefaultUpgrader
@@ -187,6 +194,12 @@ func session(kind int, id int) (obs []string, late func() []string, err error) {
 	}()
 	go func() { // client
 		defer wg.Done()
+		defer func() { // a panic inside the library ends this peer with an error instead of the whole driver
+			if p := recover(); p != nil {
+				cerr = fmt.Errorf("panic: %v", p)
+				a2close()
+			}
+		}()
 		d := ws.Dialer{Protocols: []string{"proto-" + tag, "zzz"}, Extensions: []httphead.Option{sessionParams(kind).Option()},
 			Header: ws.HandshakeHeaderString("X-Client: " + tag + "\r\n")}
 		if kind%4 == 0 {
@@ -370,6 +383,12 @@ func c19(c *ctx) {
 		for _, procs := range []int{1, 2, 16} {
 			for _, N := range []int{2, 8, 64} {
 				runtime.GOMAXPROCS(procs)
+				// failure paths return their pooled objects too: a few refused handshakes (a 403 with a
+				// body, the dialer's OnStatusError set; a request the upgrader answers with 400) go
+				// first, then the sessions draw from the same pools
+				for k := 0; k < 3; k++ {
+					refusedHandshakes(round*100 + k)
+				}
 				type res struct {
 					obs  []string
 					late func() []string
@@ -449,6 +468,28 @@ func c19(c *ctx) {
 	out.Close()
 	meta.Files = map[string][]string{"records": out.Files}
 	meta.Write(c.dir)
+}
+
+// refusedHandshakes runs handshakes that fail on either side.
+func refusedHandshakes(i int) {
+	uu, _ := url.Parse("ws://refused.test/x")
+	pc := &peerConn{}
+	pc.build = func(string) []byte {
+		return []byte(fmt.Sprintf("HTTP/1.1 403 Forbidden\r\nContent-Length: 6\r\nX-I: %d\r\n\r\nnope!\n", i))
+	}
+	d := ws.Dialer{OnStatusError: func(status int, reason []byte, r io.Reader) { io.Copy(io.Discard, r) }}
+	// (what these attempts return is not judged here - C09/C10 do that; they only exercise the failure paths)
+	if br, _, _ := d.Upgrade(pc, uu); br != nil {
+		ws.PutReader(br)
+	}
+	d2 := ws.Dialer{}
+	pc2 := &peerConn{}
+	pc2.build = pc.build
+	d2.Upgrade(pc2, uu)
+	rw := &rwBuf{r: strings.NewReader("POST /x HTTP/1.1\r\nHost: h\r\n\r\n")}
+	ws.Upgrader{}.Upgrade(rw)
+	rw2 := &rwBuf{r: strings.NewReader("GET /x HTTP/1.1\r\nHost: h\r\nUpgrade: websocket\r\nConnection: Upgrade\r\nSec-WebSocket-Version: 13\r\nSec-WebSocket-Key: dGhlIHNhbXBsZSBub25jZQ==\r\n\r\n")}
+	ws.Upgrader{OnRequest: func([]byte) error { return ws.RejectConnectionError(ws.RejectionStatus(401)) }}.Upgrade(rw2)
 }
 
 // selfSigned makes a certificate for *.tls.test that no client trusts.
